@@ -6,4 +6,5 @@ cSess == << [steps |-> 2, place |-> TRUE, exec |-> FALSE, maxN |-> 2, maxH |-> 1
             [steps |-> 1, place |-> FALSE, exec |-> TRUE, maxN |-> 1, maxH |-> 1, rate |-> 2],
             [steps |-> 2, place |-> TRUE, exec |-> TRUE, maxN |-> 2, maxH |-> 1, rate |-> 2] >>
 cPrices == {36, 37, 38, 40, 41, 42, 44}
+cNoHalt == [on |-> FALSE, targets |-> {}, num |-> 1, den |-> 1, len |-> 0]
 ====
